@@ -185,7 +185,28 @@ def done_at_reset(env, sink=None):
             if x[0] == "Reset":
                 return False
         return False
-    return bool(getattr(env, "_done", False))
+    return reset_ended_episode(env)
+
+
+def reset_ended_episode(env):
+    """True when the episode is already over right after reset() (a fold with a single event-bearing
+    timestep).  The environment's own flag is private: it is read while it exists under its present name;
+    otherwise the question is put to a deep copy of the environment through the public interface (a step on
+    an ended episode raises EndOfEpisodeError), with the process-wide contract clock restored afterwards."""
+    if hasattr(env, "_done"):
+        return bool(env._done)
+    import copy
+    clock = AbstractContract.now
+    try:
+        probe = copy.deepcopy(env)
+        probe.step(probe.action_space.null_action())
+        return False
+    except EndOfEpisodeError:
+        return True
+    except Exception:
+        return False
+    finally:
+        AbstractContract.now = clock
 
 
 def odigest(o):
